@@ -15,6 +15,7 @@
 import Proofs.GoTieUnwrap
 import Proofs.GoTieDecrypt
 import Proofs.GoTieAead
+import Props.C04
 namespace AgeModel
 namespace Tie.C04
 
@@ -61,6 +62,26 @@ theorem ssh_aeadDecrypt_tie {α : Type} {P : Prims} (E : GoTie.WrapAeadEnv α P)
       | some fk => (fk, none)
       | none => ([], some E.eAuth)) :=
   GoTie.ssh_aeadDecrypt_tie E k ct hk
+
+/-! ### The property, stated about the CODE
+
+`decrypt_tie` composed with `Props.C04.no_match_structure`: for ALL files and ALL identity lists, if every
+identity answers "incorrect identity" on the file's stanzas, the TRANSLATED `age.Decrypt` returns no reader
+(no bytes at all) and exactly the no-match error carrying one cause per identity. -/
+
+theorem code_decrypt_no_match (P : Prims) {ι : Type} (E : GoTie.DecryptEnv P ι) (file : Bytes) (ids : List ι) (hne : ids ≠ [])
+    (hdr : Format.Header) (rest : Bytes) (hp : Format.parse file = .ok (hdr, rest))
+    (hall : ∀ i ∈ ids.map E.idOf, i.unwrap P hdr.stanzas = .incorrect) :
+    Extracted.age_Decrypt E.D E.U GoTie.errorsIsEq E.mac E.newReader E.key file ids =
+      .ok ([], some ⟨"age.NoIdentityMatchError", 0, [Int.ofNat ids.length]⟩) := by
+  obtain ⟨res, hrun, hres⟩ := decrypt_tie P E file ids
+  have hne' : ids.map E.idOf ≠ [] := by
+    intro h; exact hne (List.map_eq_nil_iff.mp h)
+  have hm := Props.C04.no_match_structure P (ids.map E.idOf) hne' file hdr rest hp hall
+  rw [hm] at hres
+  simp only [List.length_map] at hres
+  rw [hrun, hres]
+  rfl
 
 end Tie.C04
 end AgeModel
